@@ -212,13 +212,13 @@ static void print_wst (const struct MHD_Connection *mc)
   size_t ie = 0;
   if (NULL != mc->rp.resp_iov.iov && mc->rp.resp_iov.sent < mc->rp.resp_iov.cnt)
     ie = (size_t) mc->rp.resp_iov.iov[mc->rp.resp_iov.sent].iov_len;
-  printf ("st=%s so=%zu ao=%zu rp=%" PRIu64 " is=%zu ic=%zu ie=%zu sf=%d wbsz=%zu rbo=%zu",
+  printf ("st=%s so=%zu ao=%zu rp=%" PRIu64 " is=%zu ic=%zu ie=%zu sf=%d wbsz=%zu rbo=%zu co=%zu",
           st_name (mc->state), mc->write_buffer_send_offset, mc->write_buffer_append_offset,
           (uint64_t) mc->rp.rsp_write_position,
           (NULL != mc->rp.resp_iov.iov) ? mc->rp.resp_iov.sent : (size_t) 0,
           (NULL != mc->rp.resp_iov.iov) ? mc->rp.resp_iov.cnt : (size_t) 0, ie,
           (int) (MHD_resp_sender_sendfile == mc->rp.resp_sender), mc->write_buffer_size,
-          mc->read_buffer_offset);
+          mc->read_buffer_offset, mc->continue_message_write_offset);
 }
 
 /* returns the fault to apply to this call (or NULL) and counts the call */
@@ -242,9 +242,15 @@ static void rearm_epoll (int c)
   (void) epoll_ctl (d->epoll_fd, EPOLL_CTL_MOD, conns[c].sfd, &ev);
 }
 
+/* per-round accounting for the spin detector of `settle`: send-type calls made on server sockets, bytes that
+   moved (either direction), injected faults */
+static unsigned long rnd_send_calls, rnd_progress, rnd_faults;
 static void sys_log (int c, int kind, size_t req, size_t iovn, ssize_t ret, int err, const struct fault *f)
 {
   g_events++;
+  if (K_RECV != kind) rnd_send_calls++;
+  if (ret > 0) rnd_progress += (unsigned long) ret;
+  if (f) rnd_faults++;
   if (shim_quiet) return;
   printf ("sys c=%d k=%s n=%lu req=%zu iovn=%zu ", c, kind_name[kind], call_count[c][kind], req, iovn);
   print_wst (conns[c].mc);
@@ -1026,10 +1032,15 @@ int main (void)
     { for (i = 0; i < (int) a; i++) { one_round (); drain_clients (); } report (); continue; }
     if (!strcmp (op, "settle") && l.n >= 2 && lp_u64 (l.w[1], &a))
     { /* run rounds until three consecutive rounds produced no observable event, or a rounds */
-      int quiet = 0, n = 0;
+      int quiet = 0, n = 0, spin = 0;
       while (n < (int) a && quiet < 3)
-      { unsigned long before = g_events; one_round (); drain_clients (); n++;
-        if (g_events == before) quiet++; else quiet = 0; }
+      { unsigned long before = g_events;
+        rnd_send_calls = rnd_progress = rnd_faults = 0;
+        one_round (); drain_clients (); n++;
+        if (g_events == before) quiet++; else quiet = 0;
+        /* spin: the socket was writable and the library called send, yet not a single byte moved and no fault was injected */
+        if (rnd_send_calls > 0 && 0 == rnd_progress && 0 == rnd_faults) spin++; else spin = 0;
+        if (spin >= 8) { out ("wedged rounds=%d send-calls-without-progress", spin); break; } }
       out ("settled rounds=%d quiet=%d", n, quiet); report (); continue; }
     if (!strcmp (op, "tick") && l.n >= 2 && lp_u64 (l.w[1], &a)) { vclock_ms += a; out ("ok"); continue; }
     if (!strcmp (op, "tickback") && l.n >= 2 && lp_u64 (l.w[1], &a)) { vclock_ms -= a; out ("ok"); continue; }
